@@ -209,7 +209,8 @@ def check_script(ctx, sc):
         # ---- comparisons --------------------------------------------------
         for left, op, right in st.comps:
             ok_kinds = ('col', 'num', 'str', 'call', 'paren', 'subq',
-                        'operation', 'typed', 'cast', 'null', 'placeholder')
+                        'operation', 'typed', 'cast', 'null', 'placeholder',
+                        'typed-tz')
             if left[2] not in ok_kinds or right[2] not in ok_kinds:
                 rec.count('comparisons_outside_declared_operand_classes')
                 continue
@@ -286,10 +287,14 @@ def witness(w):
         n = stack.pop()
         if n.is_group:
             stack.extend(n.tokens)
-            if 'expected_list' in w:
+            if 'expected_typed' in w:
+                if isinstance(n, sql.TypedLiteral):
+                    found.append(str(n))
+            elif 'expected_list' in w:
                 if isinstance(n, sql.IdentifierList):
                     found.append([str(x) for x in n.get_identifiers()])
             elif isinstance(n, sql.Function):
                 found.append([str(x) for x in n.get_parameters()])
-    ok = (w.get('expected_list') or w['expected_parameters']) in found
+    ok = (w.get('expected_typed') or w.get('expected_list')
+          or w['expected_parameters']) in found
     return (not ok), 'accessor gives %r' % (found,)
